@@ -65,7 +65,7 @@ def _eval_pred(t, rs, ro, idx):
         a, b = t[2], t[3]
         fa = [x[2] for x in walk(a) if x[0] == "field"]
         fb = [x[2] for x in walk(b) if x[0] == "field"]
-        if fa == ["index"] and fb == ["index"] and {_side(a), _side(b)} == {1, 2}:
+        if fa == fb and fa in (["index"], ["0"]) and {_side(a), _side(b)} == {1, 2}:
             rel = idx if _side(a) == 1 else {"<": ">", ">": "<", "=": "="}[idx]
             return {"Lt": rel == "<", "Gt": rel == ">", "Le": rel in "<=", "Ge": rel in ">=", "Eq": rel == "=", "Ne": rel != "="}[t[1]]
     raise ValueError("unrecognised predicate in comparator: %s" % fmt(t, 5))
@@ -152,8 +152,15 @@ def _result_of(t, st):
     if t[0] == "call" and callee_name(t) == "cmp" and len(t[2]) == 2:
         fa = [x[2] for x in walk(t[2][0]) if x[0] == "field"]
         fb = [x[2] for x in walk(t[2][1]) if x[0] == "field"]
-        if fa == ["index"] and fb == ["index"] and {_side(t[2][0]), _side(t[2][1])} == {1, 2} and _IDX[0] is not None:
+        if fa == fb and fa in (["index"], ["0"]) and {_side(t[2][0]), _side(t[2][1])} == {1, 2} and _IDX[0] is not None:
             return _IDX[0] if _side(t[2][0]) == 1 else {"<": ">", ">": "<", "=": "="}[_IDX[0]]
+        if fa == ["1"] and fb == ["1"] and t[4] is not None and "String" in (t[4].self_ty or t[4].full):
+            # tuple struct (DeltaId): the second field is the digest string, the tie-break
+            sa, sb = _side(t[2][0]), _side(t[2][1])
+            if (sa, sb) == (1, 2):
+                return st
+            if (sa, sb) == (2, 1):
+                return {"<": ">", ">": "<", "=": "="}[st]
     if t[0] == "call" and callee_name(t) in ("then_with", "then") and len(t[2]) == 2:
         first = _result_of(t[2][0], st)
         if first in ("<", ">"):
